@@ -726,3 +726,80 @@ Lemma output_ellipsis_only_refuted :
 Proof.
   exists [97;98;45;62;46;46;46;97;98], [[2;3]]%Z. split; vm_compute; reflexivity.
 Qed.
+
+(* ------------------------------------------------------------------ *)
+(* bounded exhaustive comparison of the model with NumpySpec (vm_compute) *)
+Definition sweep_pres : list (list nat) := [[]; [98]; [66]; [98; 66]].
+Definition sweep_posts : list (list nat) := [[]; [98]; [97]].
+Definition sweep_sterms : list sterm :=
+  flat_map (fun pre => flat_map (fun ell => map (fun post => mkST pre ell post) sweep_posts) [true; false]) sweep_pres.
+(* an operand: a term and its number of broadcast dimensions (all dimensions have size 2) *)
+Definition sweep_operands : list (sterm * nat) :=
+  flat_map (fun t => if st_ell t then [(t, 0); (t, 1); (t, 2)] else [(t, 0)]) sweep_sterms.
+Definition sweep_outputs : list (option sterm) :=
+  [None; Some (mkST [] false []); Some (mkST [98] false []); Some (mkST [] true []);
+   Some (mkST [] true [98]); Some (mkST [66] true []); Some (mkST [97] true [98]); Some (mkST [98; 66] false [])].
+Definition operand_shape (o : sterm * nat) : shape :=
+  repeat 2%Z (length (sterm_letters (fst o)) + snd o).
+Definition sweep_args_str (ops : list (sterm * nat)) (out : option sterm) : eargs :=
+  AStr (render_eq (map fst ops) out) (map operand_shape ops).
+Definition letter_label (c : nat) : nat := if c <? 97 then c - 65 else c - 97 + 26.
+Definition sterm_sublist (t : sterm) : list ilab :=
+  map (fun c => IL (letter_label c)) (st_pre t) ++ (if st_ell t then [IE] else []) ++
+  map (fun c => IL (letter_label c)) (st_post t).
+Definition sweep_args_inter (ops : list (sterm * nat)) (out : option sterm) : eargs :=
+  AInter (map (fun o => (operand_shape o, sterm_sublist (fst o))) ops)
+         (match out with Some o => Some (sterm_sublist o) | None => None end).
+Definition output_only_ellipsis (ops : list (sterm * nat)) (out : option sterm) : bool :=
+  match out with
+  | Some o => st_ell o && negb (existsb (fun t => st_ell (fst t)) ops)
+  | None => false
+  end.
+Definition not_refuted (r : option bool) : bool := match r with Some false => false | _ => true end.
+Definition is_agree (r : option bool) : bool := match r with Some true => true | _ => false end.
+Definition sweep_calls : list (list (sterm * nat) * option sterm) :=
+  flat_map (fun out => map (fun a => ([a], out)) sweep_operands ++
+                       flat_map (fun a => map (fun b => ([a; b], out)) sweep_operands) sweep_operands)
+           sweep_outputs.
+
+(* the pinned code, string form: every call of the sweep except the output-only-ellipsis class *)
+Lemma sweep_string_pinned :
+  forallb (fun c => output_only_ellipsis (fst c) (snd c) ||
+                    not_refuted (agrees_args_v no_fixes (sweep_args_str (fst c) (snd c)))) sweep_calls = true.
+Proof. vm_compute. reflexivity. Qed.
+(* the code with the proposed fixes: every call of the sweep, both call forms *)
+Lemma sweep_string_fixed :
+  forallb (fun c => not_refuted (agrees_args_v all_fixes (sweep_args_str (fst c) (snd c)))) sweep_calls = true.
+Proof. vm_compute. reflexivity. Qed.
+(* (interleaved calls whose ONLY ellipsis is in the output sublist stay refuted: known finding
+   interleaved-output-ellipsis-only, for which no patch is proposed) *)
+Lemma sweep_inter_fixed :
+  forallb (fun c => output_only_ellipsis (fst c) (snd c) ||
+                    not_refuted (agrees_args_v all_fixes (sweep_args_inter (fst c) (snd c)))) sweep_calls = true.
+Proof. vm_compute. reflexivity. Qed.
+(* the pinned code, interleaved form with an explicit output sublist *)
+Lemma sweep_inter_explicit_pinned :
+  forallb (fun c => match snd c with None => true | Some _ =>
+                      output_only_ellipsis (fst c) (snd c) ||
+                      not_refuted (agrees_args_v no_fixes (sweep_args_inter (fst c) (snd c))) end) sweep_calls = true.
+Proof. vm_compute. reflexivity. Qed.
+(* non-vacuity of the sweeps: how many calls numpy accepts (and the model then agrees on) *)
+Lemma sweep_sizes :
+  length sweep_calls = 8 * (48 + 48 * 48) /\
+  length (filter (fun c => is_agree (agrees_args_v all_fixes (sweep_args_str (fst c) (snd c)))) sweep_calls) = 
+  length (filter (fun c => match np_parse_args (sweep_args_str (fst c) (snd c)) with Some _ => true | None => false end) sweep_calls).
+Proof. vm_compute. split; reflexivity. Qed.
+
+Lemma interleaved_output_ellipsis_only_refuted :
+  exists ops out, agrees_args_v all_fixes (AInter ops out) = Some false /\ np_out_shape (AInter ops out) = Some [3;2]%Z.
+Proof.
+  exists [([2;3]%Z, [IL 0; IL 1])], (Some [IE; IL 1; IL 0]). split; vm_compute; reflexivity.
+Qed.
+
+(* the witnesses of the refutations are repaired by the proposed fixes *)
+Lemma fixes_repair_witnesses :
+  agrees_args_v all_fixes (AStr w_spaces [[2;3];[3;4]]%Z) = Some true /\
+  agrees_args_v all_fixes (AInter [([4;2]%Z, [IL 5; IL 1]); ([2;3]%Z, [IL 1; IL 2])] None) = Some true /\
+  front_out_shape_v all_fixes (AInter [([4;2]%Z, [IL 5; IL 1]); ([2;3]%Z, [IL 1; IL 2])] None) = Some [3;4]%Z /\
+  agrees_args_v all_fixes (AStr [97;98;45;62;46;46;46;97;98] [[2;3]]%Z) = Some true.
+Proof. vm_compute. auto. Qed.
